@@ -158,6 +158,33 @@ Proof.
     destruct o3; cbn in Hp2 |- *; auto.
     + repeat split; auto. now apply agree_meet_l.
     + repeat split; auto. apply agree_meet_r. tauto.
+  - (* CallChk *)
+    destruct (ana p1 D) as [rb|] eqn:Eb; [|discriminate].
+    pose proof (IH p1 D rb s1 s2 tr Eb Hag) as H2.
+    destruct (exec orc n p1 s1 tr) as [[o3 s3] tr3]. destruct (exec orc n p1 s2 tr) as [[o4 s4] tr4].
+    destruct H2 as (<- & <- & Hp2).
+    assert (Hfail : (o3 = Normal \/ o3 = Returned false) ->
+      match exec orc n p2 s3 tr3, exec orc n p2 s4 tr3 with
+      | (o1, s1', tr1), (o2, s2', tr2) => o1 = o2 /\ tr1 = tr2 /\ post fl o1 s1' s2' end).
+    { intro Ho.
+      assert (Hm : agree_t (meet (norm rb) (ret_any rb)) s3 s4).
+      { destruct Ho as [-> | ->]; cbn in Hp2; [now apply agree_meet_l | apply agree_meet_r; tauto]. }
+      destruct (meet (norm rb) (ret_any rb)) as [Df|] eqn:Em; [|contradiction]. cbn in Hm.
+      destruct (ana p2 Df) as [rf|] eqn:Ef; [|discriminate]. inversion Ha; subst fl; clear Ha.
+      pose proof (IH p2 Df rf s3 s4 tr3 Ef Hm) as H3.
+      destruct (exec orc n p2 s3 tr3) as [[o5 s5] tr5]. destruct (exec orc n p2 s4 tr3) as [[o6 s6] tr6].
+      destruct H3 as (<- & <- & Hp3). repeat split; auto.
+      destruct o5; cbn in Hp3 |- *; auto. now apply agree_meet_r. }
+    destruct o3 as [|[|]| |].
+    + apply Hfail; auto.
+    + cbn in Hp2. destruct Hp2 as [A B]. specialize (B eq_refl).
+      assert (Hm : agree_t (meet (norm rb) (ret_any rb)) s3 s4) by (now apply agree_meet_r).
+      destruct (meet (norm rb) (ret_any rb)) as [Df|] eqn:Em; [|contradiction].
+      destruct (ana p2 Df) as [rf|] eqn:Ef; [|discriminate]. inversion Ha; subst fl; clear Ha.
+      repeat split; auto. cbn. now apply agree_meet_l.
+    + apply Hfail; auto.
+    + cbn; auto.
+    + cbn; auto.
   - (* Ret *)
     destruct (subset fs D) eqn:Es; [|discriminate]. inversion Ha; subst fl; clear Ha.
     rewrite (agree_eval orc D s1 s2 tr fs Hag Es).
@@ -184,6 +211,10 @@ Proof.
     destruct o; auto. pose proof (IH (Loop fs p) s' tr' f Hw) as B.
     destruct (exec orc n (Loop fs p) s' tr') as [[o2 s2] tr2]. congruence.
   - pose proof (IH p s tr f Hw) as A. destruct (exec orc n p s tr) as [[o s'] tr']. destruct o; auto.
+  - rewrite mem_app in Hw. apply orb_false_iff in Hw. destruct Hw as [H1 H2].
+    pose proof (IH p1 s tr f H1) as A. destruct (exec orc n p1 s tr) as [[o s'] tr'].
+    pose proof (IH p2 s' tr' f H2) as B. destruct (exec orc n p2 s' tr') as [[o2 s2] tr2].
+    destruct o as [|[|]| |]; auto; congruence.
   - destruct (eval orc s tr fs); auto.
 Qed.
 
